@@ -104,6 +104,32 @@ def joinPathVersionBody : String :=
 def structTags : List String :=
   ["Path toml:\"path,inline\"", "Version toml:\"version,inline\"", "Name toml:\"name,omitempty\"", "Version toml:\"version,omitempty\"", "Ignore toml:\"ignore,omitempty\"", "Requirements toml:\"requirements,omitempty\""]
 
+def getAssignedFields : List String :=
+  ["Requirements"]
+
+def getReassignsConfig : Bool :=
+  false
+
+def getWritesLoadedConfig : Bool :=
+  true
+
+def getRunBody : String :=
+  String.join [
+    "(block (:= (v2) ((call (. filepath Join) (. work root) (. work configFile)))) (:= (v3 v4) ((call (. project LoadConfigFile) v2))) (if _ (!= v4 nil) (block (return (call (. fmt Errorf) _ v4))) _) (:= (v5 v4) ((call (. homedir Dir)))) (if _ (!= v4 nil) (block (return (call (. fmt Errorf) _ v4))) _) (:= (v6) ((call (. filepath Join) v5 \".dawn\" \"modules\" \"cache\"))) (:= (v7 v4) ((call newRenderer (. work verbose) (. work diff) (func (block))))) (if _ (!= v4 nil) (block (return v4)) _) (defer (call (. v7 Close))) (:= (v8) ((call (. mvs NewResolver) v6 (. mvs DefaultDialer) (lit resolveEvents (kv events v7))))) (var (v9) (map string (. project RequirementConfig)) ()) (if _ updateAll (block (if _ (!= (call len v1) 0) (block (return (call (. errors New) _))) _) (= (v9 v4) ((call (. mvs UpgradeAll) ",
+    "(call (. context TODO)) v3 v8)))) (block (if _ (!= (call len v1) 1) (block (return (call (. errors New) _))) _) (= (v9 v4) ((call (. mvs Get) (call (. context TODO)) v3 v8 (index v1 0)))))) (if _ (!= v4 nil) (block (return v4)) _) (= ((. v3 Requirements)) (v9)) (return (call (. project WriteConfigFile) v2 v3)))"]
+
+def tidyAssignedFields : List String :=
+  ["Requirements"]
+
+def tidyReassignsConfig : Bool :=
+  false
+
+def tidyWritesLoadedConfig : Bool :=
+  true
+
+def tidyRunBody : String :=
+  "(block (:= (v2) ((call (. filepath Join) (. work root) (. work configFile)))) (:= (v3 v4) ((call (. project LoadConfigFile) v2))) (if _ (!= v4 nil) (block (return (call (. fmt Errorf) _ v4))) _) (:= (v5 v4) ((call (. homedir Dir)))) (if _ (!= v4 nil) (block (return (call (. fmt Errorf) _ v4))) _) (:= (v6) ((call (. filepath Join) v5 \".dawn\" \"modules\" \"cache\"))) (:= (v7 v4) ((call newRenderer (. work verbose) (. work diff) (func (block))))) (if _ (!= v4 nil) (block (return v4)) _) (defer (call (. v7 Close))) (:= (v8) ((call (. mvs NewResolver) v6 (. mvs DefaultDialer) (lit resolveEvents (kv events v7))))) (:= (v9 v4) ((call (. mvs Tidy) (call (. context TODO)) v3 v8))) (if _ (!= v4 nil) (block (return v4)) _) (= ((. v3 Requirements)) (v9)) (return (call (. project WriteConfigFile) v2 v3)))"
+
 def goTomlVersion : String :=
   "v2.2.0"
 
